@@ -131,6 +131,46 @@ theorem by_spec (f : List Rat → Rat) (c : Cont) (k : Nat) (hdt : 0 < c.dt) (hk
   intro i hi
   exact by_window f c k i hdt hk (List.mem_range.mp hi)
 
+/-- Deepening round D.  The blocks of `downsampled_by(k)` are exactly ALL windows `[start + i·k·dt, start + (i+1)·k·dt)`
+    of the grid that lie entirely within the span (`fullWindows`, the same list `to_all_full_windows` speaks about):
+    each is represented by one sample, they are pairwise disjoint (consecutive), non-empty and inside `[start, stop]`. -/
+theorem by_all_full_windows (f : List Rat → Rat) (c : Cont) (k : Nat) (hdt : 0 < c.dt) (hk : 0 < k) :
+    ∃ r, downBy f (.cont c) k = .ok r ∧
+      r.samples = (fullWindows c.start c.stop ((k : Int) * c.dt)).filterMap (fun w =>
+        windowSample f true w (c.samples.filter (inWin w.1 w.2))) ∧
+      (fullWindows c.start c.stop ((k : Int) * c.dt)).Pairwise (fun a b => a.2 ≤ b.1) ∧
+      (∀ w ∈ fullWindows c.start c.stop ((k : Int) * c.dt), w.1 < w.2 ∧ c.start ≤ w.1 ∧ w.2 ≤ c.stop) ∧
+      ∀ i : Nat, c.start + ((i : Int) + 1) * ((k : Int) * c.dt) ≤ c.stop →
+        (c.start + (i : Int) * ((k : Int) * c.dt), c.start + ((i : Int) + 1) * ((k : Int) * c.dt))
+          ∈ fullWindows c.start c.stop ((k : Int) * c.dt) := by
+  have hs : 0 < (k : Int) * c.dt := Int.mul_pos (by exact_mod_cast hk) hdt
+  obtain ⟨r, hr, _, hsm⟩ := by_spec f c k hdt hk
+  refine ⟨r, hr, ?_, ?_, ?_, ?_⟩
+  · rw [hsm, by_fullWindows c k hdt]
+    unfold blockWins
+    rw [List.filterMap_map]
+    congr 1
+    funext i
+    simp only [Function.comp]
+    have e : c.start + (i : Int) * ((k : Int) * c.dt) + (k : Int) * c.dt
+        = c.start + ((i : Int) + 1) * ((k : Int) * c.dt) := by ring
+    rw [e]
+  · unfold fullWindows blockWins
+    rw [List.pairwise_map]
+    refine List.pairwise_lt_range.imp ?_
+    intro i j hij
+    have : ((i : Int) + 1) * ((k : Int) * c.dt) ≤ (j : Int) * ((k : Int) * c.dt) :=
+      Int.mul_le_mul_of_nonneg_right (by omega) (Int.le_of_lt hs)
+    simp only; linarith
+  · intro w hw
+    obtain ⟨i, rfl, hi⟩ := (mem_fullWindows _ _ _ hs w).mp hw
+    have h1 : 0 ≤ (i : Int) * ((k : Int) * c.dt) := Int.mul_nonneg (by omega) (Int.le_of_lt hs)
+    refine ⟨?_, ?_, hi⟩ <;> simp only <;> linarith
+  · intro i hi
+    exact (mem_fullWindows _ _ _ hs _).mpr ⟨i, rfl, hi⟩
+
+example : fullWindows 100 170 30 = [(100, 130), (130, 160)] := by decide
+
 theorem by_ts_refused (f : List Rat → Rat) (l : List Sample) (k : Nat) :
     downBy f (.ts l) k = .error .notImpl := rfl
 
@@ -344,6 +384,88 @@ example : ∀ p ∈ [0, 20, 40, 85, 95, 105].zip (likeDeltas [0, 20, 40, 85, 95,
     p.2 ≤ (likeDeltas [0, 20, 40, 85, 95, 105]).headD 0 := by decide
 example : ([0, 10, 20, 50, 80, 110].zip (likeDeltas [0, 10, 20, 50, 80, 110])).Pairwise
     (fun a b => a.1 - a.2 ≤ b.1 - b.2) := by decide
+
+/-! ## `downsampled_like`, deepening round D: disjoint windows, the code as it is now (`pw = true`) -/
+
+/-- Windows are disjoint: for a strictly increasing reference whose frame-rate changes are isolated (a period
+    longer than its predecessor is not followed by a still longer one — `IsolatedGrowth`), every window
+    `[T - δ, T)` begins at or after the PREVIOUS reference timestamp, i.e. after the end of every earlier
+    window; consequently the window starts are in order (the hypothesis `hw` of `like_repaired_kept_spec`
+    is established by the repair, not assumed). -/
+theorem like_windows_disjoint (T : List Int) (hs : T.Pairwise (· < ·)) (hg : IsolatedGrowth (diff T)) :
+    (T.zip (likeDeltas T)).Pairwise (fun a b => a.1 ≤ b.1 - b.2) ∧
+      (T.zip (likeDeltas T)).Pairwise (fun a b => a.1 - a.2 ≤ b.1 - b.2) :=
+  ⟨like_windows_disjoint' T hs hg, like_window_starts_sorted' T hs hg⟩
+
+/-- Non-vacuity: the reference of pylake's own test (one long frame, 4 → 6 → 4). -/
+example : [0, 4, 8, 12, 16, 34, 40, 46, 50, 54].Pairwise (· < ·) ∧
+    IsolatedGrowth (diff [0, 4, 8, 12, 16, 34, 40, 46, 50, 54]) := by decide
+
+/-- Which reference samples the code (as it is now) keeps: exactly those whose OWN window `[T - δ, T)` lies inside
+    the source span — no hypothesis on the window starts any more. -/
+theorem like_kept_inside_span (c : Cont) (T : List Int) (hs : T.Pairwise (· < ·))
+    (hg : IsolatedGrowth (diff T)) :
+    likeKept true c T = (T.zip (likeDeltas T)).filter fun p =>
+      decide (c.start ≤ p.1 - p.2) && decide (p.1 < c.stop) :=
+  likeKept_repaired' c T hs (like_window_starts_sorted' T hs hg)
+
+/-- End-to-end specification of `downsampled_like` as the code is: for a strictly increasing reference with
+    isolated frame-rate changes the answer is, in reference order, one sample for EVERY reference timestamp whose
+    window `[T - δ, T)` lies inside `[start, stop)`; its value is `f` of exactly the source samples in that window;
+    the cropped reference carries the same timestamps; the windows are pairwise disjoint, non-inverted and lie
+    within the source span. -/
+theorem like_spec (f : List Rat → Rat) (c : Cont) (hdt : 0 < c.dt) (r ds refc : List Sample)
+    (h : like true f (.cont c) (.ts r) = .ok (ds, refc))
+    (hs : (r.map (·.1)).Pairwise (· < ·)) (hg : IsolatedGrowth (diff (r.map (·.1)))) :
+    ∃ W : List (Int × Int),
+      W = ((r.map (·.1)).zip (likeDeltas (r.map (·.1)))).filter
+            (fun p => decide (c.start ≤ p.1 - p.2) && decide (p.1 < c.stop)) ∧
+      ds = W.map (fun p => (p.1, f ((c.samples.filter (inWin (p.1 - p.2) p.1)).map (·.2)))) ∧
+      refc.map (·.1) = W.map (·.1) ∧
+      W.Pairwise (fun a b => a.1 ≤ b.1 - b.2) ∧
+      ∀ p ∈ W, c.start ≤ p.1 - p.2 ∧ p.1 - p.2 ≤ p.1 ∧ p.1 < c.stop := by
+  refine ⟨_, rfl, ?_, ?_, ?_, ?_⟩
+  · rw [← like_kept_inside_span c _ hs hg]
+    exact like_values' true f c hdt (.ts r) ds refc h
+  · have h1 := (like_same' true f _ _ ds refc h hs).1
+    rw [← h1, like_values' true f c hdt (.ts r) ds refc h, ← like_kept_inside_span c _ hs hg]
+    simp only [List.map_map, Src.timestamps]
+    rfl
+  · exact (like_windows_disjoint' _ hs hg).filter _
+  · intro p hp
+    rw [List.mem_filter] at hp
+    obtain ⟨hm, hc⟩ := hp
+    simp only [Bool.and_eq_true, decide_eq_true_eq] at hc
+    refine ⟨hc.1, ?_, hc.2⟩
+    obtain ⟨j, hj, hjp⟩ := List.mem_iff_getElem.mp hm
+    have hlen : ((r.map (·.1)).zip (likeDeltas (r.map (·.1)))).length = (r.map (·.1)).length := by
+      rw [List.length_zip]; exact Nat.min_eq_left (likeDeltas_length _)
+    have e := zip_getD (r.map (·.1)) _ (likeDeltas_length _) j (by omega)
+    rw [List.getElem?_eq_getElem hj, hjp] at e
+    simp only [Option.some.injEq] at e
+    have := (likeDeltas_bounds _ hs hg j (by omega)).1
+    rw [e]; simp only; omega
+
+/-- Necessity of `IsolatedGrowth` (kernel-checked test on two references): periods 10, 20, 30, 30 grow twice in a
+    row; the repair gives window lengths 10, 10, 30, 30, 30 and the window `[0, 30)` of the sample at 30 overlaps
+    the window `[0, 10)` of the sample at 10.  With periods 10, 20, 50, 50 even the window STARTS are out of order
+    (the case the tie leaves out: `np.searchsorted` on an unsorted array). -/
+theorem like_overlap_witness :
+    [0, 10, 30, 60, 90].Pairwise (· < ·) ∧ ¬ IsolatedGrowth (diff [0, 10, 30, 60, 90]) ∧
+    likeDeltas [0, 10, 30, 60, 90] = [10, 10, 30, 30, 30] ∧
+    ¬ ([0, 10, 30, 60, 90].zip (likeDeltas [0, 10, 30, 60, 90])).Pairwise (fun a b => a.1 ≤ b.1 - b.2) ∧
+    ¬ ([0, 10, 30, 80, 130].zip (likeDeltas [0, 10, 30, 80, 130])).Pairwise (fun a b => a.1 - a.2 ≤ b.1 - b.2) := by
+  decide +kernel
+
+
+/-- Non-vacuity of `like_spec`: pylake's own test input. -/
+example : (like true Reduce.mean.apply
+      (.cont ⟨0, 2, [1, 1, 2, 2, 3, 3, 4, 4, 5, 5, 5, 5, 5, 5, 6, 6, 6, 7, 7, 7, 8, 8, 8, 9, 9, 9]⟩)
+      (.ts [(0, 0), (4, 1), (8, 2), (12, 3), (16, 4), (34, 6), (40, 7), (46, 8), (50, 9), (54, 10)])).toOption.map (·.1)
+    = some [(4, 1), (8, 2), (12, 3), (16, 4), (34, 6), (40, 7), (46, 8), (50, 9)] := by decide +kernel
+
+/-- The flag the protocol op `c04.likewins` prints is the hypothesis of the theorems above. -/
+theorem isolatedGrowth_flag (d : List Int) : isolatedGrowthB d = true ↔ IsolatedGrowth d := isolatedGrowthB_iff d
 
 /-- Closed form of the sequential change-point repair (`delta_time[i + 1] = delta_time[i + 2]` for
     every `i` with `d[i] < d[i+1]`, abandoned at the first `IndexError`): a period longer than its
